@@ -164,11 +164,30 @@ func (p publisherFactory) Metrics() []prometheus.Collector {
 
 var errorNoSnapshots error = fmt.Errorf("No snapshots were found on this batch!!")
 
+// validBatch tells whether tasks can be built from a gossiped batch: it needs at
+// least one snapshot and no null entries (the factories read the first and last).
+func validBatch(b *protocol.BatchSnapshots) bool {
+	if b == nil || len(b.Snapshots) == 0 {
+		return false
+	}
+	for _, s := range b.Snapshots {
+		if s == nil || s.Snapshot == nil {
+			return false
+		}
+	}
+	return true
+}
+
 func (p publisherFactory) New(ctx context.Context) gossip.Task {
 	QedPublisherBatchesReceivedTotal.Inc()
 	p.log.Infof("PublisherFactory creating new Task!")
 	a := ctx.Value("agent").(*gossip.Agent)
 	b := ctx.Value("batch").(*protocol.BatchSnapshots)
+
+	// peers are not trusted: a batch without (valid) snapshots carries nothing to do
+	if !validBatch(b) {
+		return func() error { return errorNoSnapshots }
+	}
 
 	return func() error {
 		timer := prometheus.NewTimer(QedPublisherBatchesProcessSeconds)
